@@ -267,7 +267,7 @@ def write_replay(prop, payload):
     return path
 
 
-def evaluate(mod, cases, modes, tier, timeout_s=None):
+def evaluate(mod, cases, modes, tier, timeout_s=None, retry_hangs=True):
     """Run model and implementation on cases. Returns list of records."""
     timeout_s = timeout_s or getattr(mod, 'TIMEOUT_S', 20.0)
     vals = [mod.to_val(c) for c in cases]
@@ -313,7 +313,7 @@ def evaluate(mod, cases, modes, tier, timeout_s=None):
     # a HANG the model does not predict may be a watchdog expiry on a loaded machine: re-run those cases (at most 8 per
     # mode) on their own with a ten times longer limit before they are judged
     retried = 0
-    for mode in modes:
+    for mode in (modes if retry_hangs else []):
         for batch in range(6):
             again = [(i, r['case'], 10 * timeout_s) for i, r in enumerate(recs)
                      if r['impl'].get(mode) == 'HANG' and r['model'] != 'FUEL' and not r.get('_retried_' + mode)][:8]
@@ -371,8 +371,8 @@ def judge(mod, rec, known_entries):
 
 
 def shrink(mod, rec, modes, known_entries, budget_s=60):
-    if not hasattr(mod, 'shrink'):
-        return rec
+    if not hasattr(mod, 'shrink') or 'HANG' in rec['impl'].values():
+        return rec          # every candidate of a non-terminating case costs a full watchdog period
     t0 = time.time()
     best = rec
     improved = True
@@ -382,7 +382,7 @@ def shrink(mod, rec, modes, known_entries, budget_s=60):
         if not cands:
             break
         try:
-            recs, _ = evaluate(mod, cands, modes, 'quick')
+            recs, _ = evaluate(mod, cands, modes, 'quick', retry_hangs=False)
         except MachineryError:
             break
         for r in recs:
@@ -461,10 +461,11 @@ def main(prop, tier='quick', seed=None, replay=None):
         # confirmation pass: a case that fails is run once more in fresh worker processes; only failures that reproduce
         # are judged (a worker disturbed by an earlier case, or by a loaded machine, must not raise an alarm)
         not_reproduced = 0
-        suspects = [i for i, r in enumerate(recs) if judge(mod, r, known_entries)[0] in ('violation', 'corr')]
+        suspects = [i for i, r in enumerate(recs) if judge(mod, r, known_entries)[0] in ('violation', 'corr')
+                    and 'HANG' not in r['impl'].values()]        # a HANG has already had its own long re-run
         if suspects:
             sub = suspects[:400]
-            recs2, _ = evaluate(mod, [recs[i]['case'] for i in sub], modes, tier)
+            recs2, _ = evaluate(mod, [recs[i]['case'] for i in sub], modes, tier, retry_hangs=False)
             for i, r2 in zip(sub, recs2):
                 if judge(mod, r2, known_entries)[0] not in ('violation', 'corr'):
                     recs[i] = r2
